@@ -256,8 +256,8 @@ def sized(rep, prog):
 def parts(rep, prog):
     n = 0
     for f in prog.fns:
-        if f.kind == "closure" or f.name not in ("from_parts", "into_parts"):
-            continue
+        if f.kind == "closure" or f.name not in ("from_parts", "into_parts") or f.vis != "pub":
+            continue      # the public positional constructors / destructors
         n += 1
         calls = [c for c in f.calls() if not f.blocks[c.bb]["cleanup"]]
         arith = [s for b, i, s in f.assigns() if s["rv"]["k"] in ("binop", "unop", "cast")]
